@@ -19,7 +19,15 @@ def inst(i: int):
 
 
 def ns(x) -> int:
-    return x._time_since_epoch.to_nanoseconds()
+    """Nanoseconds since the epoch of an Instant; a value whose day/nanosecond split is not normalised is reported
+    (its total would still look right, but equality, hashing and ordering of such a value are broken)."""
+    d = x._time_since_epoch
+    nod = d._nanosecond_of_floor_day
+    if not 0 <= nod < DAY:
+        from harness.core import Mismatch
+
+        raise Mismatch("instant-not-normalised", f"floor_days={d._floor_days} nanosecond_of_floor_day={nod}")
+    return d.to_nanoseconds()
 
 
 def iv_tuple(iv) -> tuple[int, int, str, int, int]:
